@@ -363,3 +363,39 @@ func dedup(a []string) []string {
 func TestC12_Framing(t *testing.T) {
 	RunProp(t, "c12.framing", genC12, execC12)
 }
+
+
+// TestC12_LongPause: "arbitrary pauses" includes pauses far longer than any
+// polling interval an implementation might use (read deadlines, timeouts). A
+// handful of cases with one long pause inside a record / between records.
+func TestC12_LongPause(t *testing.T) {
+	pauses := []int{1100, 2100}
+	if thorough() {
+		pauses = []int{1100, 2100, 3100, 5200}
+	}
+	si, sn := shard()
+	n := 0
+	RunEnum(t, "c12.longpause", func(y func(c12Case) bool) {
+		for _, ms := range pauses {
+			for _, inside := range []bool{true, false} {
+				n++
+				if n%sn != si {
+					continue
+				}
+				c := c12Case{Delim: '\n', ErrAt: -1,
+					Records: [][]byte{[]byte("first record"), patternBytes(300, byte(ms), '\n'), []byte("third")}, Tail: []byte("tail")}
+				// writes: "first record\n" + 100 bytes of record 2 | rest of record 2 + "\n" | "third\n" + tail
+				if inside {
+					c.Chunks = []int{13 + 100, 201, 6 + 4}
+					c.Pauses = []int{ms * 1000, 0, 0}
+				} else {
+					c.Chunks = []int{13, 301, 6 + 4}
+					c.Pauses = []int{ms * 1000, 1, 0}
+				}
+				if !y(c) {
+					return
+				}
+			}
+		}
+	}, execC12)
+}
